@@ -341,7 +341,10 @@ def correspondence(ctx, spec):
                         j -= 1
             except CheckError:
                 pass
+        crashed = any(o and o[0] == 4294967294 for o in (o2[0] if o2 else []))
         ctx.violation(
+            ("the implementation CRASHED the process (signal) where the model %s (%s, %s)" % (
+                "panics" if (mod2 and mod2[1]) else "returns", g["codec"], g["profile"])) if crashed else
             "implementation and proved model disagree (%s, %s)" % (g["codec"], g["profile"]),
             {"codec": g["codec"], "profile": g["profile"], "generator": g["gen"],
              "script": [op_repr(o) for o in small], "script_text": script_text(small),
